@@ -385,10 +385,14 @@ def chunkHead (vc : Nat) (s : Str) : Option (Nat × Str) :=
     | none => none
     | some r => (consume '=' r).map (fun t => (vc, t))
 
+/-- the three recursive productions behind `b:` (each of them calls `parse_espec`, the counted
+entry — never `parse_espec_inner`): the chunk loop `b:{…}`, the brace-less shorthand with a size
+spec (`b:256K*=z`, `b:1=n`, `b:*=n`) and the plain single spec (`b:n`). -/
 inductive BHead
   | err
   | braces (r : Str)
-  | single (r : Str)
+  | sized (r : Str)
+  | plain (r : Str)
 
 /-- `parse_block_table` after `b:` up to the first nested spec. -/
 def blockHead (r1 : Str) : BHead :=
@@ -399,67 +403,114 @@ def blockHead (r1 : Str) : BHead :=
     | none => .err
     | some r3 => match consume '=' r3 with
       | none => .err
-      | some r4 => .single r4
-  else .single r1
+      | some r4 => .sized r4
+  else .plain r1
 
+/-- `spec` = `parse_espec` (the ONLY function that compares and counts `self.depth`),
+`inner` = `parse_espec_inner` (the dispatch on the type letter; counts nothing),
+`loop` = the chunk loop of `parse_block_table`. -/
 inductive Mode
   | spec
+  | inner
   | loop (vc : Nat)
 
-/-- `parse_espec` (`Mode.spec`, `d` = `self.depth` at entry) and the chunk loop of
-`parse_block_table` (`Mode.loop`, `d` = `self.depth` inside it): the unread input on success and
-the deepest frame count of `parse_espec` reached (`d + 1` for a call entered at depth `d`,
-including the call that refuses). -/
-def go : Nat → Mode → Nat → Str → Option Str × Nat
-  | 0, _, d, _ => (none, d)
+/-- outcome of a parsing function: the unread input, `NestingTooDeep` raised with this input
+unread (first error wins, as with `?`), or any other error. -/
+inductive Out
+  | ok (r : Str)
+  | deep (r : Str)
+  | err
+
+def Out.ofOpt : Option Str → Out
+  | some r => .ok r
+  | none => .err
+
+/-- `let x = f()?; g()?` where `g` is a plain consumer. -/
+def Out.andThen (o : Out) (f : Str → Option Str) : Out :=
+  match o with
+  | .ok r => Out.ofOpt (f r)
+  | o => o
+
+/-- `parse_espec` (`Mode.spec`, `d` = `self.depth` at entry: refuses at `MAX_NESTING_DEPTH`,
+otherwise runs `parse_espec_inner` with `self.depth = d + 1`), `parse_espec_inner` (`Mode.inner`,
+`d` = `self.depth`: every recursive production — `e:{key,iv,<spec>}`, `b:<spec>`,
+`b:<size>=<spec>`, every chunk of `b:{…}` — goes back through `Mode.spec`, as the code does) and
+the chunk loop of `parse_block_table` (`Mode.loop`, `d` = `self.depth` inside it). Second
+component: the deepest frame count of `parse_espec` reached (`d + 1` for a call entered at depth
+`d`, including the call that refuses). -/
+def go : Nat → Mode → Nat → Str → Out × Nat
+  | 0, _, d, _ => (.err, d)
   | fuel + 1, .spec, d, s =>
-    if maxNesting ≤ d then (none, d + 1)                             -- fix 4e06d16
+    if maxNesting ≤ d then (.deep s, d + 1)                          -- fix 4e06d16
     else
-      match s with
-      | 'n' :: r => (some r, d + 1)
-      | 'z' :: _ => (zlib s, d + 1)
-      | 'c' :: _ => (leveled 'c' 7 s, d + 1)
-      | 'g' :: _ => (leveled 'g' 12 s, d + 1)
-      | 'e' :: r =>
-        match encPrefix r with
-        | none => (none, d + 1)
-        | some r1 =>
-          let x := go fuel .spec (d + 1) r1
-          (x.1.bind (consume '}'), max (d + 1) x.2)
-      | 'b' :: r =>
-        match consume ':' r with
-        | none => (none, d + 1)
-        | some r1 =>
-          match blockHead r1 with
-          | .err => (none, d + 1)
-          | .single r2 =>
-            let x := go fuel .spec (d + 1) r2
-            (x.1, max (d + 1) x.2)
-          | .braces r2 =>
-            let x := go fuel (.loop 0) (d + 1) r2
-            (x.1.bind (consume '}'), max (d + 1) x.2)
-      | _ => (none, d + 1)
+      let x := go fuel .inner (d + 1) s
+      (x.1, max (d + 1) x.2)
+  | fuel + 1, .inner, d, s =>
+    match s with
+    | 'n' :: r => (.ok r, d)
+    | 'z' :: _ => (.ofOpt (zlib s), d)
+    | 'c' :: _ => (.ofOpt (leveled 'c' 7 s), d)
+    | 'g' :: _ => (.ofOpt (leveled 'g' 12 s), d)
+    | 'e' :: r =>
+      match encPrefix r with
+      | none => (.err, d)
+      | some r1 =>
+        let x := go fuel .spec d r1
+        (x.1.andThen (consume '}'), max d x.2)
+    | 'b' :: r =>
+      match consume ':' r with
+      | none => (.err, d)
+      | some r1 =>
+        match blockHead r1 with
+        | .err => (.err, d)
+        | .sized r2 =>
+          let x := go fuel .spec d r2
+          (x.1, max d x.2)
+        | .plain r2 =>
+          let x := go fuel .spec d r2
+          (x.1, max d x.2)
+        | .braces r2 =>
+          let x := go fuel (.loop 0) d r2
+          (x.1.andThen (consume '}'), max d x.2)
+    | _ => (.err, d)
   | fuel + 1, .loop vc, d, s =>
     match chunkHead vc s with
-    | none => (none, d)
+    | none => (.err, d)
     | some (vc', r) =>
       let x := go fuel .spec d r
       match x.1 with
-      | some (',' :: r2) =>
+      | .ok (',' :: r2) =>
         let y := go fuel (.loop vc') d r2
         (y.1, max x.2 y.2)
       | o => (o, x.2)
 
-/-- the top-level `parse_espec` call (`self.depth = 0`). -/
-def top (s : Str) : Option Str × Nat := go (2 * s.length + 2) .spec 0 s
+/-- the top-level `parse_espec` call (`self.depth = 0`). Fuel: `spec → inner` reads nothing, every
+other step down reads at least two characters. -/
+def top (s : Str) : Out × Nat := go (2 * s.length + 2) .spec 0 s
+
+/-- what `Parser::parse` returns, as far as K observes it: `Ok`, `Err(NestingTooDeep(pos))`, any
+other error. -/
+inductive Res
+  | ok
+  | deep (pos : Nat)
+  | other
+  deriving DecidableEq, Repr
+
+/-- `Parser::parse`: result, deepest `parse_espec` frame. -/
+def parseX (s : Str) : Res × Nat :=
+  if s.isEmpty then (.other, 0)
+  else
+    match top s with
+    | (.ok [], m) => (.ok, m)
+    | (.ok _, m) => (.other, m)
+    | (.deep r, m) => (.deep (s.length - r.length), m)
+    | (.err, m) => (.other, m)
 
 /-- `Parser::parse`: accepted?, deepest `parse_espec` frame. -/
 def parse (s : Str) : Bool × Nat :=
-  if s.isEmpty then (false, 0)
-  else
-    match top s with
-    | (some [], m) => (true, m)
-    | (_, m) => (false, m)
+  match parseX s with
+  | (.ok, m) => (true, m)
+  | (_, m) => (false, m)
 
 end ESpec
 
